@@ -114,7 +114,7 @@ static std::string cfgStr(const RunCfg& c) {
 }
 
 struct Judge {
-    verif::Run& run; const Sut& S; const std::string& desc; int64_t nJudged = 0, nInterp = 0, nUnprojected = 0; bool postEvent = false; Real prevT = -Infinity;
+    verif::Run& run; const Sut& S; const std::string& desc; int64_t nJudged = 0, nInterp = 0, nUnprojected = 0; bool postEvent = false; Real prevT = -Infinity, prevStepT = -Infinity; std::string prevStatus;
     // returns false if the state is unusable
     void state(const Integrator& I, const State& s, bool interpolated, bool projInterp, bool inf, const char* status, const std::string& integ) {
         mb::Model& M = *S.M;
@@ -138,10 +138,13 @@ struct Judge {
         }
         const bool judgeManifold = !(interpolated && !projInterp);
         if (!judgeManifold) { ++nUnprojected; return; }
-        const bool stalled = !interpolated && !postEvent && s.getTime() - prevT < 1e-9 && std::string(status) == "TimeHasAdvanced";   // step size collapsed: the dynamics are (numerically) singular here
-        if (stalled) run.count("stalled-steps(h<1e-9)/" + integ);
-        const std::string kind = interpolated ? "interpolated" : (postEvent ? "first-state-after-event-handling" : stalled ? "step-with-h-below-1e-9" : "step");
-        prevT = s.getTime();
+        // step size collapsed (the dynamics are numerically singular here): a TimeHasAdvanced state less than 1e-5 after the previous
+        // trajectory state (a step end that coincides with a report is returned twice and is not counted as a step of length 0)
+        const bool sameStateAgain = prevStatus == "ReachedReportTime" && s.getTime() == prevT;
+        const bool stalled = !interpolated && !postEvent && !sameStateAgain && s.getTime() - prevStepT < 1e-5 && std::string(status) == "TimeHasAdvanced";
+        if (stalled) run.count("stalled-steps(h<1e-5)/" + integ);
+        const std::string kind = interpolated ? "interpolated" : (postEvent ? "first-state-after-event-handling" : stalled ? "step-with-h-below-1e-5" : "step");
+        prevT = s.getTime(); prevStatus = status; if (!interpolated) prevStepT = s.getTime();
         const Vector& e = s.getQErr(); const Vector& w = s.getQErrWeights();
         const int mq = M.matter.getNumQuaternionsInUse(s), mh = e.size() - mq;
         std::vector<LD> a(mh), b(mq), c;
